@@ -19,9 +19,11 @@ per token suffice, which is what `parseFormula` supplies).  Hence the grammar is
 (`derives_unique`: "the unique syntax tree the grammar assigns"), the parser returns `f` exactly
 when `f` is that tree (`parse_iff`) and rejects exactly the non-sentences (`reject_iff`).
 
-Not proved: `scan_eq_munch` — the scanner as a maximal-munch lexer specification (the token-level
-facts above are proved; the character-level scanner is compared with the real tokenizer on every
-generated text, incl. non-ASCII letters/digits and stray characters).
+Lexical level (`Thm/C08L.lean`): `scan_eq_munch` / `tokenize_eq_spec` — the scanner (first matching
+alternative of the regular expression) computes the lexical specification of `Spec/Lexer.lean`
+(LONGEST matching symbol, digit runs, `{references}`, name runs, quoted comments, every other
+character a separator), because no symbol literal is a proper prefix of a later one.  The character
+classes `\w` / `\d` of non-ASCII characters are supplied by the regex crate through the harness.
 -/
 import Rsbdd.Proofs.ParseNoLeaf
 import Rsbdd.Proofs.ParseComplete
